@@ -40,7 +40,8 @@ func replayViolation(P *Program, id string, v *ObligResult) replayResult {
 		"smtlib":        truncate(v.query, 30000),
 	}
 	rr := replayResult{}
-	if v.Result == "failed" && os.Getenv("GOVC_NO_REPLAY") == "" {
+	_, hasSpecial := specialReplays[v.Name]
+	if (v.Result == "failed" || hasSpecial) && os.Getenv("GOVC_NO_REPLAY") == "" {
 		src, out, ok, err := replayOnRealCode(P, v)
 		if err != nil {
 			payload["replay_error"] = err.Error()
